@@ -280,15 +280,16 @@ type Ineq struct {
 
 // Arith is the per-function integer reasoning context.
 type Arith struct {
-	m        *Model
-	fn       *ssa.Function
-	ctx      *FnCtx
-	atoms    map[string]ssa.Value // atom key -> defining value (for axioms)
-	lenOf    map[string]ssa.Value // "len:<key>" -> the container value
-	curIneqs []Ineq               // inequalities of the proof in progress (for conditional axioms)
-	curFacts []Fact
-	nonneg   map[string]bool
-	is32bit  bool
+	m          *Model
+	fn         *ssa.Function
+	ctx        *FnCtx
+	atoms      map[string]ssa.Value // atom key -> defining value (for axioms)
+	lenOf      map[string]ssa.Value // "len:<key>" -> the container value
+	curIneqs   []Ineq               // inequalities of the proof in progress (for conditional axioms)
+	extraIneqs []Ineq               // case constraints of an enclosing min/max split
+	curFacts   []Fact
+	nonneg     map[string]bool
+	is32bit    bool
 }
 
 func (m *Model) NewArith(fn *ssa.Function) *Arith {
@@ -815,7 +816,7 @@ func (a *Arith) ineqsFrom(facts []Fact) []Ineq {
 }
 
 func (a *Arith) proveWithPhis(form Lin, k int64, pt point, depth int, busy map[*ssa.Phi]bool) bool {
-	ineqs := a.ineqsFrom(pt.facts)
+	ineqs := append(a.ineqsFrom(pt.facts), a.extraIneqs...)
 	saved, savedF := a.curIneqs, a.curFacts
 	a.curIneqs, a.curFacts = ineqs, pt.facts
 	defer func() { a.curIneqs, a.curFacts = saved, savedF }()
@@ -860,6 +861,52 @@ func (a *Arith) proveWithPhis(form Lin, k int64, pt point, depth int, busy map[*
 			break
 		}
 		delete(busy, phi)
+		if okAll {
+			return true
+		}
+	}
+	// split on a min/max atom: its value is one of its arguments (under "that argument is the smallest/largest")
+	for _, key := range keys {
+		call, ok := a.atoms[key].(*ssa.Call)
+		if !ok {
+			continue
+		}
+		bi, ok := call.Call.Value.(*ssa.Builtin)
+		if !ok || (bi.Name() != "min" && bi.Name() != "max") {
+			continue
+		}
+		okAll := true
+		for i, e := range call.Call.Args {
+			el := a.lin(e)
+			nf := substitute(form, key, el)
+			var sub []Ineq
+			for _, q := range ineqs {
+				sub = append(sub, Ineq{substituteNoC(q.Form, key, el, &q.K), q.K})
+			}
+			for j, o := range call.Call.Args {
+				if j == i {
+					continue
+				}
+				if bi.Name() == "min" {
+					sub = append(sub, mkIneq(el.add(a.lin(o), -1), 0)) // e <= o
+				} else {
+					sub = append(sub, mkIneq(a.lin(o).add(el, -1), 0)) // o <= e
+				}
+			}
+			if a.proveLE(nf, k, sub, 4) {
+				continue
+			}
+			// the substituted form may contain a phi or another min/max: go one level deeper with the case constraints as facts
+			saved2 := a.extraIneqs
+			a.extraIneqs = append(append([]Ineq{}, saved2...), sub[len(ineqs):]...)
+			deeper := a.proveWithPhis(nf, k, pt, depth-1, busy)
+			a.extraIneqs = saved2
+			if deeper {
+				continue
+			}
+			okAll = false
+			break
+		}
 		if okAll {
 			return true
 		}
